@@ -186,6 +186,19 @@ def generate(tier, seed, ctx):
                                  'canon': info_canonical(info)})
     if q and len(msgs) > 2400:
         msgs = rng.sample(msgs, 2400)
+    # one account named in several forms within one message and across consecutive messages (plain, anycast prefixes of
+    # different depths): each field is the form it was written in, whatever form the account had elsewhere
+    ints = [ic['val'] for ic in infos if ic['val']['c'] == 'int_msg_info']
+    if ints:
+        acct = {'wc': [0] * 8, 'hash': [(i * 7 + 3) % 2 for i in range(256)]}
+        forms = [dict(acct, any=[]), dict(acct, any=[[1, 0, 1]]), dict(acct, any=[[0] * 30]), dict(acct, any=[[1]])]
+        for a in range(len(forms)):
+            for b in range(len(forms)):
+                if a == b:
+                    continue
+                k += 1
+                info = dict(ints[(a * 5 + b) % len(ints)], src=forms[a], dest=forms[b])
+                msgs.append({'id': k, 'type': 'MessageL', 'val': {'info': info, 'init': [], 'body': leaf_tree(rng, 8, 0)}, 'canon': info_canonical(info)})
     encs = vlib.tlc_map('TlbEncode.tla', [{'id': m['id'], 'type': m['type'], 'val': m['val']} for m in msgs], os.path.join(ctx['work'], 'enc'))
     for m in msgs:
         v = m['val']
@@ -203,10 +216,11 @@ def generate(tier, seed, ctx):
                 s = tlbkit.tree_to_cell(e['tree']).begin_parse()
                 obj = T.MessageAny.deserialize(s)
                 reparsed = obj
-                rec['obs'] = tlbkit.observe(obj, e['flat'], 'Message')
                 rec['rem'] = {'bits': s.remaining_bits, 'refs': s.remaining_refs}
                 if e['sides'][1] == 0 and s.remaining_bits == len(obj.body.bits) and s.remaining_refs == len(obj.body.refs):
                     rec['rem'] = {'bits': 0, 'refs': 0}          # inline body = the rest of the cell (see C16)
+                tlbkit.drain(s)
+                rec['obs'] = tlbkit.observe(obj, e['flat'], 'Message')
             except Exception as ex:
                 rec['err'] = type(ex).__name__
                 reparsed = None
@@ -299,8 +313,9 @@ def generate(tier, seed, ctx):
         try:
             s = tlbkit.tree_to_cell(case['enc']).begin_parse()
             obj = WRAP[ty].deserialize(s)
-            rec['obs'] = tlbkit.observe(obj, case['flat'], ty)
             rec['rem'] = {'bits': s.remaining_bits, 'refs': s.remaining_refs}
+            tlbkit.drain(s)
+            rec['obs'] = tlbkit.observe(obj, case['flat'], ty)
         except Exception as e:
             rec['err'] = type(e).__name__
             obj = None
